@@ -104,7 +104,7 @@ pub fn check(c: &Case, st: &mut Stats) -> CheckResult {
         if name.starts_with("valid:") && !v_der {
             fail!(format!("derived_rejects_valid:set{}", p.id), "set {} [{name}]: derived public key rejects a valid signature", p.id);
         }
-        if c.other_key != c.key && name == "foreign_key" && v_der {
+        if c.other_key.bytes() != c.key.bytes() && name == "foreign_key" && v_der {
             fail!(format!("derived_accepts_foreign:set{}", p.id), "set {}: derived public key accepts another key's signature", p.id);
         }
         if v_der {
@@ -124,7 +124,7 @@ pub fn check(c: &Case, st: &mut Stats) -> CheckResult {
 
 pub fn run(ctx: &Ctx, rep: &mut Report) {
     rep.assume(ASSUME_REF);
-    run_generated(ctx, rep, "generated", ctx.n(1500, 40_000), strategy, check);
+    run_generated(ctx, rep, "generated", ctx.n(6000, 100_000), strategy, check);
 }
 
 pub fn replay(_ctx: &Ctx, sub: &str, case: &Value) -> Option<CheckResult> {
